@@ -194,16 +194,33 @@ dump() {
 }
 while IFS= read -r -d '' mode && IFS= read -r -d '' text; do
   (
+    # reader route: ev (eval), src (a sourced file), rd (lines taken by `read -r`, then eval), hd (a quoted
+    # here-document read by cat, then eval), dw (the text as operand of `declare`)
+    rm=ev
+    case $mode in *'|'*) rm=${mode%%|*}; mode=${mode#*|} ;; esac
     case $mode in
-      a) set -- zz-unset-marker; eval "set -- $text" >/dev/null 2>&1 </dev/null
-         if [ "$#" = 1 ] && [ "$1" = zz-unset-marker ]; then printf 'ERR\0'; else printf 'W\0'; [ "$#" -gt 0 ] && printf '%s\0' "$@"; fi ;;
-      s) eval "zzr=$text" >/dev/null 2>&1 </dev/null
-         if [ "${zzr+x}" = x ]; then printf 'S\0%s\0' "$zzr"; else printf 'NONE\0'; fi ;;
-      v:*) eval "$text" >/dev/null 2>&1 </dev/null; dump "${mode#v:}" ;;
-      al) eval "$text" >/dev/null 2>&1 </dev/null
-         if [ "${BASH_ALIASES[zzal]+x}" = x ]; then printf 'S\0%s\0' "${BASH_ALIASES[zzal]}"; else printf 'NONE\0'; fi ;;
-      tr) eval "$text" >/dev/null 2>&1 </dev/null
-         t=$(trap -p USR1; printf x); t=${t%x}
+      a) set -- zz-unset-marker; stmt="set -- $text" ;;
+      s) if [ "$rm" = dw ]; then stmt="declare zzr=$text"; else stmt="zzr=$text"; fi ;;
+      *) stmt=$text
+         if [ "$rm" = dw ]; then case $text in declare\ *|alias\ *|trap\ *) ;; *) stmt="declare $text" ;; esac; fi ;;
+    esac
+    case $rm in
+      src) printf '%s\n' "$stmt" > "$ZZF"; . "$ZZF" >/dev/null 2>&1 </dev/null ;;
+      rd)  printf '%s\n' "$stmt" > "$ZZF"; zzacc=; while IFS= read -r zzl; do zzacc+=$zzl$'\n'; done < "$ZZF"
+           eval "$zzacc" >/dev/null 2>&1 </dev/null ;;
+      hd)  eval "zzh=\$(cat <<'ZZEOF'
+$stmt
+ZZEOF
+)" 2>/dev/null; eval "$zzh" >/dev/null 2>&1 </dev/null ;;
+      *)   eval "$stmt" >/dev/null 2>&1 </dev/null ;;
+    esac
+    case $mode in
+      a) if [ "$#" = 1 ] && [ "$1" = zz-unset-marker ]; then printf 'ERR\0'; else printf 'W\0'; [ "$#" -gt 0 ] && printf '%s\0' "$@"; fi ;;
+      s) if [ "${zzr+x}" = x ]; then printf 'S\0%s\0' "$zzr"; else printf 'NONE\0'; fi ;;
+      v:*) dump "${mode#v:}" ;;
+      n:*) if [[ -R ${mode#n:} ]]; then eval 'printf "N\0%s\0" "${!'${mode#n:}'}"'; else printf 'NOTREF\0'; fi ;;
+      al) if [ "${BASH_ALIASES[zzal]+x}" = x ]; then printf 'S\0%s\0' "${BASH_ALIASES[zzal]}"; else printf 'NONE\0'; fi ;;
+      tr) t=$(trap -p USR1; printf x); t=${t%x}
          if [ -z "$t" ]; then printf 'NONE\0'
          elif [ "$t" = "trap -- \\' SIGUSR1"$'\n' ]; then printf 'S\0%s\0' "'"    # bash prints a lone quote as \'
          else t=${t#"trap -- '"}; t=${t%"' SIGUSR1"$'\n'}; q="'\\''"; printf 'S\0%s\0' "${t//"$q"/\'}"; fi ;;
@@ -211,6 +228,7 @@ while IFS= read -r -d '' mode && IFS= read -r -d '' text; do
   ) 2>/dev/null
   printf '%s\0' "$tok"
 done
+rm -f "$ZZF"
 '''
 
 
@@ -225,6 +243,7 @@ def bash_read(jobs, cwd):
         e = dict(lib.BASE_ENV)
         e["HOME"] = HOME
         e["ZZTOK"] = tok    # not a positional parameter: a badly quoted text may expand `$1`
+        e["ZZF"] = os.path.join(cwd, "zzrd-%s-%d" % (tok[-6:], id(chunk)))
         p = subprocess.run([lib.BASH, "--norc", "--noprofile", "-c", BASH_READER, "bash"], input=data,
                            stdout=subprocess.PIPE, stderr=subprocess.DEVNULL, env=e, cwd=cwd, timeout=1800)
         recs = p.stdout.split(b"\0")
@@ -258,6 +277,8 @@ def canon_bash(mode, r):
         return " ".join(["W", str(len(r) - 1)] + [esc(x) for x in r[1:]])
     if r[0] == "S":
         return "S " + esc(r[1] if len(r) > 1 else "")
+    if r[0] == "N":
+        return "N " + esc(r[1] if len(r) > 1 else "")
     if r[0] == "V":
         attrs = r[1] if len(r) > 1 else ""
         kv = r[2:]
@@ -393,6 +414,11 @@ def _gen_cases(ctx):
         for i, v in enumerate(exhaustive(3)):
             if len(v) == 3 and i % 2 == 0:
                 cases.append(Case("exh3", ("pq", "Q", "dp", "xt")[(i // 7) % 4], "", [v]))
+    # every ASCII control character: alone, before an octal digit, inside a word
+    for c in [chr(i) for i in range(1, 32)] + ["\x7f"]:
+        for v in (c, c + "7", "a" + c + "b"):
+            for form in ("pq", "Q", "dp", "xt", "set", "A"):
+                cases.append(Case("ctl", form, "", [v]))
     for _ in range(ctx.size(8000, 60000)):
         v = rand_string(rng)
         form = rng.choice(SCALAR_FORMS)
@@ -476,6 +502,7 @@ def _run(ctx, work):
         _fn_level(ctx, work, cwd, viol)
         _e2e_level(ctx, work, cwd, viol)
         _shadow_level(ctx, work, cwd, viol)
+        _context_level(ctx, work, cwd, viol)
     finally:
         os.chdir(lib.ROOT)
     ctx.cov["rule"] = ("strings over the property's 20-character alphabet exhaustively to length 3 through the six quoting "
@@ -660,7 +687,7 @@ def shadow_expect(ctx_name, specs):
         v = esc(inner.vals[0])
         for f in ("pq", "Q", "xt"):
             out[f] = (["a", "s"], ["W 1 " + v, "S " + v])
-        for f in ("A", "dp", "dpl") + (() if ctx_name == "tmp" else ("lp",)):
+        for f in ("A", "dp", "dpl") + (("lp",) if ctx_name in ("f1", "f2") else ()):
             out[f] = (["v:zzv"], ["V %s s %s" % (eff, v)])
         out["set"] = (["v:zzv"], ["V - s " + v])
         out["xs"] = (["v:zzt"], ["V - s " + v])
@@ -668,11 +695,13 @@ def shadow_expect(ctx_name, specs):
         out["al"] = (["al"], ["S " + v])
         if in_domain("tr", inner.vals[0]):
             out["tr"] = (["tr"], ["S " + v])
+        out["nr"] = (["n:zzNR"], ["N zzv"])          # declare -p of a nameref to the variable
     else:
         kv = " ".join("%d %s" % (i, esc(x)) for i, x in enumerate(inner.vals))
         out["Qa"] = (["a"], [" ".join(["W", str(len(inner.vals))] + [esc(x) for x in inner.vals])])
-        for f in ("Aa", "dpa", "dpl", "lp"):
+        for f in ("Aa", "dpa", "dpl") + (("lp",) if ctx_name in ("f1", "f2") else ()):
             out[f] = (["v:zzv"], ["V %s a %s" % (eff, kv)])
+        out["ex"] = (["v:zzv"], ["V %s a %s" % (eff, kv)]) if "x" in eff else None
         out["seta"] = (["v:zzv"], ["V - a " + kv])
     return out
 
@@ -753,54 +782,79 @@ def _parse_segs(line):
     return out
 
 
+class CtxItem:
+    """one request of the shadow / context-sweep stages"""
+    def __init__(self, src, scope, specs, wrapper="none", opts="-", rm="ev"):
+        self.src, self.scope, self.specs, self.wrapper, self.opts, self.rm = src, scope, specs, wrapper, opts, rm
+        sp = " ".join(t for x in specs for t in x.tokens())
+        self.mreq = "sh %s %s" % (scope, sp)        # the model: the context wrapper, options and reader route do not matter
+        if wrapper == "none" and opts == "-" and rm == "ev" and scope != "g":
+            self.req = self.mreq
+        else:
+            self.req = "cx %s %s %s %s %s" % (scope, wrapper, opts, rm, sp)
+
+    def label(self):
+        return "%s/%s/%s/%s" % (self.scope, self.wrapper, self.opts, self.rm)
+
+
 def _shadow_level(ctx, work, cwd, viol):
-    items = gen_shadow(ctx)
-    reqs = [shadow_request(c, sp) for _, c, sp in items]
+    items = [CtxItem(src, c, sp) for src, c, sp in gen_shadow(ctx)]
+    _run_ctx_items(ctx, work, cwd, viol, items, "shadow")
+
+
+def _run_ctx_items(ctx, work, cwd, viol, items, stage):
+    reqs = [it.req for it in items]
     okh, bouts, errs = _vh(reqs, work)
     if not okh:
         ctx.broken.append("harness c13 died: " + errs[:500])
-    mouts = lib.run_drv_parallel(["C13 " + r for r in reqs])
-    exps = [shadow_expect(c, sp) for _, c, sp in items]
+    mouts = lib.run_drv_parallel(["C13 " + it.mreq for it in items])
+    exps = [shadow_expect(it.scope, it.specs) for it in items]
     jobs, idx = [], []
     parsed = []
-    for ri, (b, ex) in enumerate(zip(bouts, exps)):
+    for ri, (it, b, ex) in enumerate(zip(items, bouts, exps)):
         segs = _parse_segs(b)
         parsed.append(segs)
         for form, e in ex.items():
             if e is None or form not in segs or segs[form][0] in ("ABSENT", "NOFILE"):
                 continue
             for k, mode in enumerate(e[0]):
-                jobs.append((mode, unesc(segs[form][0])))
+                jobs.append((it.rm + "|" + mode, unesc(segs[form][0])))
                 idx.append((ri, form, k))
     hres = dict(zip(idx, bash_read(jobs, cwd)))
     shown = 0
-    for ri, ((src, cname, specs), req, b, m, ex, segs) in enumerate(zip(items, reqs, bouts, mouts, exps, parsed)):
+    for ri, (it, req, b, m, ex, segs) in enumerate(zip(items, reqs, bouts, mouts, exps, parsed)):
         msegs = _parse_segs(m)
+        cname, specs = it.scope, it.specs
         inner = specs[0]
         eff = effective_attrs(cname, specs)
-        base = {"context": cname, "request": req,
+        where = "context " + it.label()
+        base = {"context": cname, "wrapper": it.wrapper, "options": it.opts, "reader": it.rm, "request": req,
                 "scopes (innermost first)": [{"kind": sp.kind, "declared attrs": sp.attrs, "values": sp.vals} for sp in specs],
                 "visible attrs": eff}
+        if not segs:
+            viol("brush produced nothing in %s (%s)" % (where, b[:80]), base)
+            continue
         for form, e in ex.items():
-            ctx.count(("sh", cname, form, req), nontrivial=not all(_trivial(v) for v in inner.vals),
-                      bucket="shadow-%s:%s" % (cname, form))
+            if stage == "shadow":
+                bucket = "shadow-%s:%s" % (cname, form)
+            else:
+                bucket = None
+            ctx.count((stage, form, req), nontrivial=not all(_trivial(v) for v in inner.vals), bucket=bucket)
             ctx.impl_validated += 1
             cd = dict(base)
             cd.update({"form": form, "brush": segs.get(form), "model": msegs.get(form)})
             bs = segs.get(form)
             if bs is None or bs[0] == "NOFILE":
-                viol("brush printed nothing usable for form '%s' in a shadowing context" % form, cd)
+                viol("brush printed nothing usable for form '%s' in %s" % (form, where), cd)
                 continue
             if e is None:
                 if bs[0] != "ABSENT":
                     cd["text"] = unesc(bs[0])
                     viol("export -p lists a variable whose visible binding is not exported (a hidden outer binding is printed)", cd)
-                elif msegs.get(form) != bs:
-                    viol("listing model and brush disagree", cd, kind="correspondence")
                 continue
             modes, expect = e
             if bs[0] == "ABSENT":
-                viol("the listing '%s' has no line for the visible binding of the variable" % form, cd)
+                viol("the listing '%s' has no line for the visible binding of the variable (%s)" % (form, where), cd)
                 continue
             cd["text"] = unesc(bs[0])
             fails = []
@@ -808,23 +862,38 @@ def _shadow_level(ctx, work, cwd, viol):
                 h = hres.get((ri, form, k), "DIED")
                 cd["bash-" + mode] = h
                 rb = bs[1 + k] if len(bs) > 1 + k else "MISSING"
+                if it.rm == "hd" and h != expect[k] and any(ch in "\x01\x7f" for ch in cd["text"]):
+                    # bash quirk, not the property: a raw 0x01 / 0x7f inside a here-document that is read in a command
+                    # substitution is dropped by bash itself (its internal CTLESC / CTLNUL bytes)
+                    ctx.oracle_mismatch += 1
+                    h = expect[k]
                 if rb != expect[k] or h != expect[k]:
                     fails.append((k, mode, rb, h))
             ms = msegs.get(form)
-            if ms is None or ms[0] != bs[0]:
-                viol("printer/listing model and brush disagree on the text printed in a shadowing context"
+            if inner.kind == "a" and form == "ex":
+                ms = None      # exported arrays in export -p: not modelled (finding export_p_array_elements_lost)
+            elif ms is None or ms[0] != bs[0]:
+                viol("printer/listing model and brush disagree on the text printed in %s" % where
                      + (": and it does not read back to the visible value" if fails else ""), cd,
                      kind="property" if fails else "correspondence")
                 continue
-            if any(ms[1 + k] != "UNSUP" and ms[1 + k] != bs[1 + k] for k in range(len(modes)) if len(ms) > 1 + k and len(bs) > 1 + k):
-                viol("reader model and brush disagree on text printed in a shadowing context", cd,
+            elif it.rm == "ev" and any(ms[1 + k] != "UNSUP" and ms[1 + k] != bs[1 + k]
+                                       for k in range(len(modes)) if len(ms) > 1 + k and len(bs) > 1 + k):
+                viol("reader model and brush disagree on text printed in %s" % where, cd,
                      kind="property" if fails else "correspondence")
                 continue
             for k, mode, rb, h in fails:
-                eform = {"dpl": "dp", "lp": "dp", "dpa": "dpa", "seta": "seta"}.get(form, form)
-                clause = explain(eform, eff if eform in ("A", "dp", "ex") else "", inner.vals, mode[0], expect[k], rb, h)
-                what = ("in context %s the text printed by '%s' does not read back to the visible (innermost) value "
-                        "(%s: brush %s, bash %s)" % (cname, form, mode, "ok" if rb == expect[k] else "WRONG",
+                eform = {"dpl": "dp", "lp": "dp"}.get(form, form)
+                if inner.kind == "a" and form == "ex":
+                    first = "V %s a 0 %s" % (eff, esc(inner.vals[0]))
+                    clause = ["export_p_array_elements_lost"] if len(inner.vals) > 1 and rb == h == first else None
+                elif it.rm == "rd" and rb != expect[k] and h == expect[k] and \
+                        any((ord(ch) < 0x20 and ch not in "\t\n\r\x0c") or ord(ch) == 0x7f for ch in cd["text"]):
+                    clause = ["read_drops_control_characters"]
+                else:
+                    clause = explain(eform, eff if eform in ("A", "dp", "ex") else "", inner.vals, mode[0], expect[k], rb, h)
+                what = ("in %s the text printed by '%s' does not read back to the visible (innermost) value "
+                        "(%s: brush %s, bash %s)" % (where, form, mode, "ok" if rb == expect[k] else "WRONG",
                                                      "ok" if h == expect[k] else "WRONG"))
                 d = dict(cd)
                 d["expected"] = expect[k]
@@ -835,7 +904,99 @@ def _shadow_level(ctx, work, cwd, viol):
                     viol(what, d)
         if shown < 3 and ri % 499 == 7:
             shown += 1
-            ctx.sample({"shadow context": cname, "scopes": base["scopes (innermost first)"], "brush": b[:400]})
+            ctx.sample({stage + " context": it.label(), "scopes": base["scopes (innermost first)"], "brush": b[:400]})
+    if stage != "shadow":
+        for it in items:
+            ctx.bucket("sweep-wrapper:" + it.wrapper)
+            ctx.bucket("sweep-reader:" + it.rm)
+            ctx.bucket("sweep-scope:" + it.scope)
+            for o in it.opts.split(","):
+                ctx.bucket("sweep-option:" + o)
+
+
+# ------------------------------------------------------------------------------------------------
+# context sweep: the printers inside other execution contexts, under options that must not matter, and the
+# reader side through other routes
+
+SW_WRAPPERS = ["none", "sub", "cs", "ev", "br", "lpipe", "pipe0", "wh", "for", "trap", "src", "twice"]
+# options that must not change what is printed. The IFS values avoid every character of the printer commands
+# themselves: brush field-splits LITERAL words by IFS (`IFS=a; declare -p x` runs `decl`, `IFS=:; : x` runs nothing) —
+# a word-splitting defect that belongs to the field-splitting property, not to this one
+SW_OPTIONS = ["-", "u", "f", "e", "E", "T", "h", "posix", "extglob", "nullglob", "dotglob", "nocasematch", "globstar",
+              "expand_aliases", "lastpipe", "inherit_errexit", "extquote", "noextquote", "ifscomma", "ifsempty", "ps4"]
+SW_READERS = ["ev", "src", "rd", "hd", "dw"]
+SW_SCOPES = ["g", "g", "f1", "f2", "tmp"]
+CTL_CHARS = [chr(i) for i in range(1, 32)] + ["\x7f"]
+
+
+def sweep_ok(scope, wrapper, opts):
+    o = opts.split(",")
+    if wrapper == "trap" and (scope != "g" or "e" in o):
+        return False       # the ERR handler is installed at top level; `false` under errexit would leave the shell
+    return True
+
+
+def sweep_specs(rng, scope, strings):
+    if scope == "tmp":
+        return [Spec("s", "", [rng.choice(strings)]), Spec("s", rng.choice(("", "x")), ["OUTER"])]
+    r = rng.random()
+    if r < 0.25:
+        inner = Spec("a", rng.choice(("", "x", "x", "r")), [rng.choice(strings) for _ in range(rng.randint(1, 3))])
+    else:
+        a = rng.choice(("", "", "x", "r", "rx", "i", "l", "u", "t", "lx"))
+        inner = Spec("s", a, [fit_attrs(rng, a, rng.choice(strings))])
+    if scope == "g":
+        return [inner]
+    specs = [inner]
+    if scope == "f2":
+        specs.append(Spec("s", rng.choice(("", "x")), ["mid"]))
+    specs.append(Spec(rng.choice("ssa"), rng.choice(("", "x")), ["OUTER", "second"][:rng.randint(1, 2)]))
+    if specs[-1].kind == "s":
+        specs[-1].vals = specs[-1].vals[:1]
+    return specs
+
+
+def gen_sweep(ctx):
+    rng = ctx.rng
+    small = list(exhaustive(2))
+    strings = (small + [rand_string(rng, 12) for _ in range(200)] + CTL_CHARS + [c + "7" for c in CTL_CHARS]
+               + ["a" + c + "b" for c in CTL_CHARS] + ["é", "日本", "😀 x", "e\u0301"])
+    items = []
+    if ctx.quick:
+        n = 2400
+        for k in range(n):
+            scope = SW_SCOPES[k % len(SW_SCOPES)]
+            wrapper = SW_WRAPPERS[(k // 5) % len(SW_WRAPPERS)]
+            opts = SW_OPTIONS[(k // 7) % len(SW_OPTIONS)]
+            if k % 4 == 3:
+                o2 = rng.choice(SW_OPTIONS[1:])
+                if o2 != opts and opts != "-":
+                    opts = opts + "," + o2
+            rm = SW_READERS[(k // 3) % len(SW_READERS)]
+            if not sweep_ok(scope, wrapper, opts):
+                wrapper = "ev"
+            items.append(CtxItem("sweep", scope, sweep_specs(rng, scope, strings), wrapper, opts, rm))
+    else:
+        base = [(sc, sweep_specs(rng, sc, strings)) for sc in SW_SCOPES * 3]
+        for scope, specs in base:
+            for wrapper in SW_WRAPPERS:
+                for opts in SW_OPTIONS:
+                    if not sweep_ok(scope, wrapper, opts):
+                        continue
+                    for rm in SW_READERS:
+                        items.append(CtxItem("sweep", scope, specs, wrapper, opts, rm))
+        for _ in range(6000):
+            scope = rng.choice(SW_SCOPES)
+            wrapper = rng.choice(SW_WRAPPERS)
+            opts = ",".join(sorted(set(rng.sample(SW_OPTIONS[1:], rng.randint(1, 3)))))
+            if not sweep_ok(scope, wrapper, opts):
+                continue
+            items.append(CtxItem("sweep", scope, sweep_specs(rng, scope, strings), wrapper, opts, rng.choice(SW_READERS)))
+    return items
+
+
+def _context_level(ctx, work, cwd, viol):
+    _run_ctx_items(ctx, work, cwd, viol, gen_sweep(ctx), "sweep")
 
 
 def replay(ctx, rp):
@@ -845,12 +1006,14 @@ def replay(ctx, rp):
     try:
         if "context" in case:
             req = case["request"]
+            rmode = case.get("reader", "ev")
             _, b, _ = lib.run_vh(BIN, [req], env={"TMPDIR": work, "HOME": HOME})
-            m = lib.run_drv(["C13 " + req])
             b = b[0] if b else "<harness died>"
-            segs, msegs = _parse_segs(b), _parse_segs(m[0])
-            cname, specs = parse_shadow_request(req)
+            segs = _parse_segs(b)
+            cname, specs = parse_shadow_request(req if req.startswith("sh ") else "sh " + " ".join([req.split(" ")[1]] + req.split(" ")[5:]))
             ex = shadow_expect(cname, specs)
+            m = lib.run_drv(["C13 sh %s %s" % (cname, " ".join(t for x in specs for t in x.tokens()))])
+            msegs = _parse_segs(m[0])
             print("request:", req)
             bad = False
             for form, e in ex.items():
@@ -864,7 +1027,7 @@ def replay(ctx, rp):
                 if not bs or bs[0] in ("ABSENT", "NOFILE"):
                     bad = True
                     continue
-                hs = bash_read([(mode, unesc(bs[0])) for mode in e[0]], work)
+                hs = bash_read([(rmode + "|" + mode, unesc(bs[0])) for mode in e[0]], work)
                 for k, mode in enumerate(e[0]):
                     okk = len(bs) > 1 + k and bs[1 + k] == e[1][k] and hs[k] == e[1][k]
                     print("           %-6s expected %s | bash %s%s" % (mode, e[1][k], hs[k], "" if okk else "   <-- FAILS"))
